@@ -4,6 +4,7 @@
 //!    window, equilibrium conditions re-computed at the returned states, T/p round trip, phase diagrams).
 //!  * `tie`    (cfg(feos_verif) hooks): the real `iterate_pure_t` / `pure_p` steps, the start cascade, `from_states`
 //!    and the diagram assembly on the same inputs as the Coq model `PureVleC04.v` (generated `interval` / `vm_compute` files).
+mod helpers;
 mod sweep;
 #[cfg(feos_verif)]
 mod tie;
@@ -100,5 +101,6 @@ fn main() {
     let tie = tie::run(&cli, &mut rng);
     #[cfg(not(feos_verif))]
     let tie = Value::Null;
-    cli.write_impl(&json!({"support": support, "tie": tie}));
+    let helpers = helpers::run(full);
+    cli.write_impl(&json!({"support": support, "tie": tie, "helpers": helpers}));
 }
